@@ -11,6 +11,7 @@ import (
 	"time"
 
 	"github.com/hashicorp/serf/serf"
+	"verifsim/vsched"
 )
 
 func init() {
@@ -59,6 +60,10 @@ func driveSnap(r *Run, sr *snapRun, m *eventModel, s Step) {
 		case "join", "leave", "failed", "update", "reap":
 			m.sampleClock(sr.clk)
 		}
+	case "evq":
+		// queued: handed to the snapshotter without waiting for it to catch up
+		sr.in <- toEvent(s)
+		m.apply(s)
 	case "adv":
 		time.Sleep(time.Duration(s.D))
 		syncWait()
@@ -429,9 +434,23 @@ func genC13(seed uint64, tier string) *Case {
 	c.Steps = genSnapEvents(g, n, false)
 	c.Steps = append(c.Steps, Step{Op: "leave"})
 	c.Steps = append(c.Steps, genSnapEvents(g, g.Intn(30), false)...)
-	if g.Bool(0.3) {
+	switch g.Intn(10) {
+	case 0, 1, 2:
 		c.Steps = append(c.Steps, Step{Op: "reopen"})
 		c.Steps = append(c.Steps, genSnapEvents(g, g.Intn(6), false)...)
+	case 3, 4, 5:
+		// events that are still queued inside the snapshotter when the shutdown comes
+		// (fed without waiting for it to catch up, shutdown at once)
+		for k := 0; k < 1+g.Intn(6); k++ {
+			c.Steps = append(c.Steps, Step{Op: "clk", U: 1}, Step{Op: "evq", S: []string{"join", "join", "failed", "leave"}[g.Intn(4)], I: g.Intn(8), J: g.Intn(len(snapIPs)), K: 1000})
+		}
+	}
+	if g.Bool(0.35) {
+		// the leave lands exactly on a compaction boundary: a first pass measures the
+		// snapshot size S at the moment of the leave, the real pass runs with the
+		// compaction threshold S+delta (the "leave" record is 6 bytes long)
+		c.P["boundary"] = 1
+		c.P["delta"] = int64(g.Intn(30)) - 22 // the measuring pass also writes a final clock line (up to ~14 bytes)
 	}
 	return c
 }
@@ -439,6 +458,27 @@ func genC13(seed uint64, tier string) *Case {
 func execC13(r *Run) {
 	minCompact := int(r.C.P["compact"])
 	rejoin := r.C.P["rejoin"] == 1
+	if r.C.P["boundary"] == 1 {
+		// measuring pass: same history up to the leave, no compaction, clean shutdown
+		pm := &eventModel{st: newSnapState()}
+		ps, err := openSnap(r, map[string][]byte{}, 1<<30, rejoin, nil, 0)
+		if err == nil {
+			for _, s := range r.C.Steps {
+				if s.Op == "leave" {
+					break
+				}
+				driveSnap(r, ps, pm, s)
+			}
+			ps.close()
+			size := len(ps.fs.Image()[snapPath])
+			minCompact = size + int(r.C.P["delta"])
+			if minCompact < 0 {
+				minCompact = 0
+			}
+			r.Fault("leave-at-compaction-boundary")
+			r.Logf("boundary pass: size at leave %d -> threshold %d", size, minCompact)
+		}
+	}
 	m := &eventModel{st: newSnapState()}
 	sr, err := openSnap(r, map[string][]byte{}, minCompact, rejoin, nil, 0)
 	if err != nil {
@@ -447,9 +487,14 @@ func execC13(r *Run) {
 	}
 	var atLeave *snapState
 	left := false
+	var evq []Step
 	for idx, s := range r.C.Steps {
 		r.curStep = idx
 		switch s.Op {
+		case "c", "t":
+			// recorded schedule of the shutdown race below
+		case "evq":
+			evq = append(evq, s)
 		case "leave":
 			if left {
 				continue
@@ -483,8 +528,33 @@ func execC13(r *Run) {
 		}
 	}
 	r.curStep = len(r.C.Steps)
+	if len(evq) > 0 {
+		// events still arriving while the node shuts down: the feeder, the shutdown and
+		// the snapshotter's own goroutines run under the yield scheduler, so that which
+		// of them is ahead is a recorded, replayable choice
+		syncWait()
+		b := newBRun(r, false)
+		feed := b.S.Spawn("feed", func() {
+			for _, s := range evq {
+				vsched.YieldAt("evq")
+				sr.in <- toEvent(s)
+				m.apply(s)
+			}
+		})
+		down := b.S.Spawn("shutdown", func() {
+			vsched.YieldAt("shutdown")
+			close(sr.shutdown)
+		})
+		if err := b.run([]*vsched.G{feed, down}, 200000); err != nil {
+			r.Fail("scheduler", "harness-sched", "shutdown race: %v", err)
+		}
+		b.S.Quiesce(200000)
+		b.finish()
+		r.Fault("events-racing-with-shutdown")
+		sr.closed = true
+	}
 	sr.close()
-	if !left {
+	if !left || r.Failed() {
 		return
 	}
 	r.NonTrivial = true
